@@ -277,6 +277,17 @@ def install(E):
         E.memset(st, a[0], v, csize(E, a[2]))
         return a[0]
 
+    @reg("llvm.load.relative")
+    def load_relative(E, st, fr, ins, a):
+        v = E.load(st, Ptr(a[0].obj, E.padd(a[0].off, to_signed(a[1], 64))), ir.I32)
+        if isinstance(v, PtrDiff) and v.b.obj == a[0].obj:
+            d = v.b.off - a[0].off if isinstance(v.b.off, int) and isinstance(a[0].off, int) else None
+            if d == 0:
+                return v.a
+        if isinstance(v, int):
+            return Ptr(a[0].obj, E.padd(a[0].off, to_signed(v, 32)))
+        raise EngineError("llvm.load.relative of unsupported table entry")
+
     @reg("llvm.trap")
     def trap(E, st, fr, ins, a):
         raise PathEnd("trap")
@@ -568,7 +579,7 @@ def install(E):
     def strtod(E, st, fr, ins, a):
         s = E.cstring(st, a[0]).decode("latin1")
         import re
-        mph = re.match(r"\s*\x01(\d+)\x02", s)
+        mph = re.match(r"\s*[-+]?0e\+9(\d{6})", s)
         if mph:
             k, v = E.token_value(st, int(mph.group(1)))
             if not a[1].is_null():
@@ -715,6 +726,7 @@ def install(E):
     from . import streams
     streams.install(E)
     install_printf(E)
+    install_scanf(E)
 
 
 def _pname(st, p):
@@ -787,3 +799,89 @@ def install_printf(E):
         E.write_bytes(st, a[0], data + b"\0")
         return len(data) & mask(32)
     X["sprintf"] = sprintf
+
+
+def install_scanf(E):
+    X = E.externs
+    import re
+
+    def sscanf(E, st, fr, ins, a):
+        src = E.cstring(st, a[0])
+        fmt = E.cstring(st, a[1]).decode("latin1")
+        pos = 0
+        ai = 2
+        n = 0
+        i = 0
+        while i < len(fmt):
+            c = fmt[i]
+            if c.isspace():
+                while pos < len(src) and src[pos] in (32, 9, 10, 11, 12, 13):
+                    pos += 1
+                i += 1
+                continue
+            if c != "%":
+                if pos < len(src) and src[pos] == ord(c):
+                    pos += 1
+                    i += 1
+                    continue
+                break
+            m = re.match(r"%(\*)?(\d+)?(hh|h|ll|l|L)?([diufgesc%])", fmt[i:])
+            if not m:
+                raise EngineError("sscanf format %r" % fmt)
+            i += m.end()
+            star, width, length, conv = m.groups()
+            if conv != "c":
+                while pos < len(src) and src[pos] in (32, 9, 10, 11, 12, 13):
+                    pos += 1
+            rest = src[pos:pos + int(width)] if width else src[pos:]
+            if conv in "diu":
+                mm = re.match(rb"[-+]?\d+", rest)
+                if not mm:
+                    break
+                v = int(mm.group(0))
+                pos += mm.end()
+                if not star:
+                    bits = 64 if length in ("l", "ll") else 16 if length == "h" else 32
+                    E.store(st, a[ai], ir.intT(bits), v & mask(bits))
+                    ai += 1
+                    n += 1
+            elif conv in "fge":
+                mph = re.match(rb"[-+]?0e\+9(\d{6})", rest)
+                if mph:
+                    k, v = E.token_value(st, int(mph.group(1)))
+                    if k != "double":
+                        v = E.fp.sitofp(v, 64) if is_sym(v) else (Fraction(v) if E.exact else float(v))
+                    pos += mph.end()
+                else:
+                    mm = re.match(rb"[-+]?(?:\d+\.?\d*|\.\d+)(?:[eE][-+]?\d+)?", rest)
+                    if not mm:
+                        break
+                    txt = mm.group(0).decode()
+                    v = Fraction(txt) if E.exact else float(txt)
+                    pos += mm.end()
+                if not star:
+                    E.store(st, a[ai], ir.DOUBLE if length in ("l", "L") else ir.FLOAT, v)
+                    ai += 1
+                    n += 1
+            elif conv == "s":
+                mm = re.match(rb"\S+", rest)
+                if not mm:
+                    break
+                pos += mm.end()
+                if not star:
+                    E.write_bytes(st, a[ai], mm.group(0) + b"\0")
+                    ai += 1
+                    n += 1
+            elif conv == "c":
+                if pos >= len(src):
+                    break
+                if not star:
+                    E.store(st, a[ai], ir.I8, src[pos])
+                    ai += 1
+                    n += 1
+                pos += 1
+        if n == 0 and pos >= len(src):
+            return mask(32)  # EOF
+        return n
+    X["__isoc99_sscanf"] = sscanf
+    X["sscanf"] = sscanf
